@@ -10,10 +10,10 @@ def BaseCore_ResetImpl : String :=
   "ResetImpl() { var expected = _callback.load(rlx); return ((expected != kResult) && _callback.compare_exchange_strong(expected, kEmpty, rlx)) }"
 
 def BaseCore_SetInlineImpl : String :=
-  "SetInlineImpl(callback) { if ((!SetCallbackImpl<Shared>(callback))) { return Step((*this), callback) }; return Noop() }"
+  "SetInlineImpl(callback) { if ((!SetCallbackImpl<Shared>(callback))) { return Step<SymmetricTransfer>((*this), callback) }; return Noop<SymmetricTransfer>() }"
 
 def BaseCore_SetResultImpl : String :=
-  "SetResultImpl() { var expected = _callback.exchange(kResult, acq_rel); ifc (Shared) { var head = cast(expected); if (head) { while (var next = head.next) { Loop(this, head); (head = cast(next)) }; DecRef(); Loop(this, head) } else { DecRef() }; DecRef(); DecRef(); return Noop() } else { if ((expected != kEmpty)) { var callback = cast(expected); return Step((*this), (*callback)) } else { return Noop() } } }"
+  "SetResultImpl() { var expected = _callback.exchange(kResult, acq_rel); ifc (Shared) { var head = cast(expected); if (head) { while (var next = head.next) { Loop(this, head); (head = cast(next)) }; DecRef(); Loop(this, head) } else { DecRef() }; DecRef(); DecRef(); return Noop<SymmetricTransfer>() } else { if ((expected != kEmpty)) { var callback = cast(expected); return Step<SymmetricTransfer>((*this), (*callback)) } else { return Noop<SymmetricTransfer>() } } }"
 
 def BaseCore_Empty : String :=
   "Empty() { var callback = _callback.load(acq); return (callback == kEmpty) }"
@@ -22,10 +22,10 @@ def BaseCore_Ready : String :=
   "Ready() { var callback = _callback.load(acq); return (callback == kResult) }"
 
 def Drop_Impl : String :=
-  "Impl(caller) { caller.DecRef(); return Noop() }"
+  "Impl(caller) { caller.DecRef(); return Noop<SymmetricTransfer>() }"
 
 def Promise_Set : String :=
-  "Set(args) { ifc ((sizeof... == 0)) { _core.Store(in_place) } else { _core.Store(pack(forward(args))) }; var core = _core.Release(); Loop(core, core.SetResult()) }"
+  "Set(args) { ifc ((sizeof... == 0)) { _core.Store(in_place) } else { _core.Store(pack(forward<Args>(args))) }; var core = _core.Release(); Loop(core, core.SetResult<false>()) }"
 
 def Promise_dtor : String :=
   "~Promise<V, E>() { if (Valid()) { move((*this)).Set(cast(init())) } }"
@@ -49,7 +49,7 @@ def UniqueCore_CallInline : String :=
   "CallInline(callback) { if ((!SetCallback(callback))) { var next = callback.Here((*this)) } }"
 
 def detail_SetCallback : String :=
-  "SetCallback(core, executor, f) { decl TypeAliasDecl; decl TypeAliasDecl; var Unique = is_same_v; var Shared = is_same_v; decl StaticAssertDecl; var From = (Unique ? FromUnique : FromShared); var callback = MakeCore(forward(f)); ifc (IsDetach(CoreT)) { callback.StoreCallback(MakeDrop()) }; (callback._executor = executor); var caller = lambda{ ifc (Unique) { return core.Release() } else { return core.Get() } }(); ifc ((!IsLazy(CoreT))) { Loop(caller, caller.SetInline((*callback))) }; decl TypeAliasDecl; ifc (IsLazy(CoreT)) { decl StaticAssertDecl; (callback.next = caller); caller.StoreCallback((*callback)); return init(init(init(init(cast(init()), callback)))) } else ifc ((!IsDetach(CoreT))) { ifc (On) { return init(init(init(init(cast(init()), callback)))) } else { return init(init(init(init(cast(init()), callback)))) } } }"
+  "SetCallback(core, executor, f) { decl TypeAliasDecl; decl TypeAliasDecl; var Unique = is_same_v; var Shared = is_same_v; decl StaticAssertDecl; var From = (Unique ? FromUnique : FromShared); var callback = MakeCore<CoreT|From,Arg,E>(forward<Func>(f)); ifc (IsDetach(CoreT)) { callback.StoreCallback(MakeDrop()) }; (callback._executor = executor); var caller = lambda{ ifc (Unique) { return core.Release() } else { return core.Get() } }(); ifc ((!IsLazy(CoreT))) { Loop(caller, caller.SetInline<false>((*callback))) }; decl TypeAliasDecl; ifc (IsLazy(CoreT)) { decl StaticAssertDecl; (callback.next = caller); caller.StoreCallback((*callback)); return init(init(init(init(cast(init()), callback)))) } else ifc ((!IsDetach(CoreT))) { ifc (On) { return init(init(init(init(cast(init()), callback)))) } else { return init(init(init(init(cast(init()), callback)))) } } }"
 
 def Connect_Unique : String :=
   "Connect(f, p) { decl StaticAssertDecl; if (f.GetCore().SetCallback((*p.GetCore().Get()))) { f.GetCore().Release(); p.GetCore().Release() } else { move(p).Set(move(f).Touch()) } } || Connect(f, p) { if (f.GetCore().SetCallback((*p.GetCore().Get()))) { p.GetCore().Release() } else { move(p).Set(f.Touch()) } } || Connect(f, p) { if (f.GetCore().SetCallback((*p.GetCore().Get()))) { f.GetCore().Release(); p.GetCore().Release() } else { move(p).Set(move(f).Touch()) } } || Connect(primary, subsumed) { var subsumed_core = subsumed.GetCore().Release(); (ignore = primary.GetCore().SetCallback((*subsumed_core))) }"
@@ -67,10 +67,10 @@ def MutexEvent_Wait : String :=
   "Wait(token) { while ((!_is_ready)) { _cv.wait(token) } }"
 
 def CallCallback_Impl : String :=
-  "Impl() { DownCast((*this)).Sub(1); return Noop() }"
+  "Impl() { DownCast<Derived>((*this)).Sub(1); return Noop<SymmetricTransfer>() }"
 
 def WaitIterator : String :=
-  "WaitIterator(timeout, it, count) { decl StaticAssertDecl; var kShared = is_same_v; if ((count == 0)) { return true }; if ((count == 1)) { return WaitCore(timeout, it.GetHandle()) }; var range = lambda{ var wait_count = 0; var range_it = it; for (var i = 0; (i != count); (++i)) { (wait_count += cast(func(range_it.GetHandle()))); (++range_it) }; return wait_count }; decl TypeAliasDecl; decl TypeAliasDecl; var event = init((count + 1)); return WaitRange(event, timeout, range, count) }"
+  "WaitIterator(timeout, it, count) { decl StaticAssertDecl; var kShared = is_same_v; if ((count == 0)) { return true }; if ((count == 1)) { return WaitCore<Event>(timeout, it.GetHandle()) }; var range = lambda{ var wait_count = 0; var range_it = it; for (var i = 0; (i != count); (++i)) { (wait_count += cast(func(range_it.GetHandle()))); (++range_it) }; return wait_count }; decl TypeAliasDecl; decl TypeAliasDecl; var event = init((count + 1)); return WaitRange(event, timeout, range, count) }"
 
 def OneCounter_Sub : String :=
   "Sub(_) { Delete((*this)) }"
@@ -88,13 +88,13 @@ def MutexEvent_WaitTimed : String :=
   "Wait(token, timeout_duration) { return _cv.wait_for(token, timeout_duration, lambda{ return _is_ready }) } || Wait(token, timeout_time) { return _cv.wait_until(token, timeout_time, lambda{ return _is_ready }) }"
 
 def Wait_variadic_iterator : String :=
-  "Wait(fs) { WaitCore(cast(init()), pack(fs.GetHandle())) } || Wait(begin, end) { WaitIterator(cast(init()), begin, cast((end - begin))) } || Wait(begin, count) { WaitIterator(cast(init()), begin, count) }"
+  "Wait(fs) { WaitCore<Event>(cast(init()), pack(fs.GetHandle())) } || Wait(begin, end) { WaitIterator<Event>(cast(init()), begin, cast((end - begin))) } || Wait(begin, count) { WaitIterator<Event>(cast(init()), begin, count) }"
 
 def WaitFor_variadic_iterator : String :=
-  "WaitFor(timeout_duration, fs) { return WaitCore(timeout_duration, pack(fs.GetHandle())) } || WaitFor(timeout_duration, begin, end) { return WaitIterator(timeout_duration, begin, cast((end - begin))) } || WaitFor(timeout_duration, begin, count) { return WaitIterator(timeout_duration, begin, count) }"
+  "WaitFor(timeout_duration, fs) { return WaitCore<Event>(timeout_duration, pack(fs.GetHandle())) } || WaitFor(timeout_duration, begin, end) { return WaitIterator<Event>(timeout_duration, begin, cast((end - begin))) } || WaitFor(timeout_duration, begin, count) { return WaitIterator<Event>(timeout_duration, begin, count) }"
 
 def WaitUntil_variadic_iterator : String :=
-  "WaitUntil(timeout_time, fs) { return WaitCore(timeout_time, pack(fs.GetHandle())) } || WaitUntil(timeout_time, begin, end) { return WaitIterator(timeout_time, begin, cast((end - begin))) } || WaitUntil(timeout_time, begin, count) { return WaitIterator(timeout_time, begin, count) }"
+  "WaitUntil(timeout_time, fs) { return WaitCore<Event>(timeout_time, pack(fs.GetHandle())) } || WaitUntil(timeout_time, begin, end) { return WaitIterator<Event>(timeout_time, begin, cast((end - begin))) } || WaitUntil(timeout_time, begin, count) { return WaitIterator<Event>(timeout_time, begin, count) }"
 
 def OneShotEvent_SetImpl : String :=
   "SetImpl(self, value) { var head = self.exchange(value, acq_rel); var job = cast(head); while ((job != nullptr)) { var next = cast(job.next); job.Call(); (job = next) } }"
@@ -112,7 +112,7 @@ def OneShotEvent_Set : String :=
   "Set() { SetImpl(_head, kAllDone) }"
 
 def OneShotEvent_TimedWait : String :=
-  "TimedWait(timeout) { var waiter = MakeShared(2); if (TryAdd(operator*(waiter))) { var token = operator->(waiter).Make(); return waiter->Wait(token, timeout) }; delete(waiter.Release()); return true }"
+  "TimedWait(timeout) { var waiter = MakeShared<TimedWaiter>(2); if (TryAdd(operator*(waiter))) { var token = operator->(waiter).Make(); return waiter->Wait(token, timeout) }; delete(waiter.Release()); return true }"
 
 def OneShotEvent_ExtendedAwaiter_Call : String :=
   "Call() { operator->(._core._executor).Submit((*._core)) }"
@@ -154,7 +154,7 @@ def WaitGroup_InsertIt : String :=
   "InsertIt(it, count) { decl StaticAssertDecl; if ((count == 0)) { return  }; var range = lambda{ var wait_count = 0; for (var i = 0; (i != count); (++i)) { ifc (NeedMove) { (wait_count += cast(func((*it.GetCore().Release())))) } else { (wait_count += cast(func((*it.GetCore())))) }; (++it) }; return wait_count }; InsertRange<NeedMove,NeedAdd>(range, count) }"
 
 def DropCallback_Impl : String :=
-  "Impl(caller) { caller.DecRef(); DownCast((*this)).Sub(1); return Noop() }"
+  "Impl(caller) { caller.DecRef(); DownCast<Derived>((*this)).Sub(1); return Noop<SymmetricTransfer>() }"
 
 def Strand_Submit : String :=
   "Submit(job) { var expected = _jobs.load(rlx); do { (job.next = ((expected == Mark()) ? nullptr : expected)) } while ((!_jobs.compare_exchange_weak(expected, (&job), acq_rel, rlx))); if ((expected == Mark())) { cast((*this)).IncRef(); operator->(_executor).Submit((*this)) } }"
@@ -214,7 +214,7 @@ def LockAwaiter_await_suspend : String :=
   "await_suspend(handle) { ifc (Shared) { return _mutex.AwaitLockShared(handle.promise()) } else { return _mutex.AwaitLock(handle.promise()) } }"
 
 def GuardAwaiter_await_resume : String :=
-  "await_resume() { return init(init(Cast(_mutex), adopt_lock)) }"
+  "await_resume() { return init(init(Cast<M>(_mutex), adopt_lock)) }"
 
 def LockStickyAwaiter_await_ready : String :=
   "await_ready() { (_executor = nullptr); return _mutex.TryLockAwait() }"
@@ -229,19 +229,19 @@ def UnlockStickyAwaiter_await_suspend : String :=
   "await_suspend(handle) { return _mutex.AwaitUnlockOn(handle.promise(), (*_executor)) }"
 
 def GuardStickyAwaiter_await_ready : String :=
-  "await_ready() { var mutex_impl = Cast((*_guard.Mutex())); var awaiter = init(mutex_impl, _guard._executor); return awaiter.await_ready() }"
+  "await_ready() { var mutex_impl = Cast<typenameM::Base>((*_guard.Mutex())); var awaiter = init(mutex_impl, _guard._executor); return awaiter.await_ready() }"
 
 def GuardStickyAwaiter_await_suspend : String :=
-  "await_suspend(handle) { var mutex_impl = Cast((*_guard.Mutex())); var awaiter = init(mutex_impl, _guard._executor); return awaiter.await_suspend(handle) }"
+  "await_suspend(handle) { var mutex_impl = Cast<typenameM::Base>((*_guard.Mutex())); var awaiter = init(mutex_impl, _guard._executor); return awaiter.await_suspend(handle) }"
 
 def GuardStickyAwaiter_await_resume : String :=
   "await_resume() { return move(_guard) }"
 
 def StickyGuard_Lock : String :=
-  "Lock() { var m = cast(LockState()); var base = Cast((*m)); return init(init(base, _executor)) }"
+  "Lock() { var m = cast(LockState()); var base = Cast<typenameM::Base>((*m)); return init(init(base, _executor)) }"
 
 def StickyGuard_Unlock : String :=
-  "Unlock() { var m = cast(UnlockState()); var base = Cast((*m)); return init(init(base, _executor)) }"
+  "Unlock() { var m = cast(UnlockState()); var base = Cast<typenameM::Base>((*m)); return init(init(base, _executor)) }"
 
 def Guard_dtor : String :=
   "~Guard<M, Shared>() { if ((*this)) { UnlockHere() } }"
@@ -499,7 +499,7 @@ def FiberQueue_WaitNoTimeout : String :=
   "Wait(_) { var fiber = Current(); _queue.PushBack(cast(fiber)); OnSync(this, kPark, 0); Suspend(); OnSync(this, kWake, 0); return Ready }"
 
 def FiberQueue_WaitTimed : String :=
-  "Wait(duration) { return Wait((duration + now())) } || Wait(time_point) { var fiber = Current(); var queue_node = cast(fiber); _queue.PushBack(queue_node); OnSync(this, kParkTimed, 0); var scheduler = GetScheduler(); scheduler.SleepPreemptive(duration_cast(time_point.time_since_epoch()).count()); var res = queue_node.Erase(); OnSync(this, kWake, (res ? 1 : 0)); return (res ? Timeout : Ready) }"
+  "Wait(duration) { return Wait((duration + now())) } || Wait(time_point) { var fiber = Current(); var queue_node = cast(fiber); _queue.PushBack(queue_node); OnSync(this, kParkTimed, 0); var scheduler = GetScheduler(); scheduler.SleepPreemptive(duration_cast<std::chrono::nanoseconds>(time_point.time_since_epoch()).count()); var res = queue_node.Erase(); OnSync(this, kWake, (res ? 1 : 0)); return (res ? Timeout : Ready) }"
 
 def FiberQueue_NotifyAll : String :=
   "NotifyAll() { OnSync(this, kNotifyAll, (_queue.Empty() ? 0 : 1)); var all = init(move(_queue)); operator=(_queue, init()); while ((!all.Empty())) { var fiber = cast(cast(all.PopBack())); ScheduleAndRemove(fiber) } }"
@@ -580,7 +580,7 @@ def FiberSched_Suspend : String :=
   "Suspend() { var fiber = sCurrent; fiber.Suspend() }"
 
 def FiberThisThread_sleep : String :=
-  "sleep_until(sleep_time) { var timeout = duration_cast(sleep_time.time_since_epoch()).count(); GetScheduler().Sleep(timeout) }"
+  "sleep_until(sleep_time) { var timeout = duration_cast<std::chrono::nanoseconds>(sleep_time.time_since_epoch()).count(); GetScheduler().Sleep(timeout) }"
 
 def FiberThisThread_sleep_for : String :=
   "sleep_for(sleep_duration) { sleep_until((now() + sleep_duration)) }"
@@ -730,7 +730,7 @@ def Sched_Queue_Wait : String :=
   "Wait(_) { var fiber = Current(); _queue.PushBack(cast(fiber)); OnSync(this, kPark, 0); Suspend(); OnSync(this, kWake, 0); return Ready }"
 
 def Sched_Queue_WaitTimed : String :=
-  "Wait(duration) { return Wait((duration + now())) } || Wait(time_point) { var fiber = Current(); var queue_node = cast(fiber); _queue.PushBack(queue_node); OnSync(this, kParkTimed, 0); var scheduler = GetScheduler(); scheduler.SleepPreemptive(duration_cast(time_point.time_since_epoch()).count()); var res = queue_node.Erase(); OnSync(this, kWake, (res ? 1 : 0)); return (res ? Timeout : Ready) }"
+  "Wait(duration) { return Wait((duration + now())) } || Wait(time_point) { var fiber = Current(); var queue_node = cast(fiber); _queue.PushBack(queue_node); OnSync(this, kParkTimed, 0); var scheduler = GetScheduler(); scheduler.SleepPreemptive(duration_cast<std::chrono::nanoseconds>(time_point.time_since_epoch()).count()); var res = queue_node.Erase(); OnSync(this, kWake, (res ? 1 : 0)); return (res ? Timeout : Ready) }"
 
 def Sched_Queue_NotifyOne : String :=
   "NotifyOne() { OnSync(this, kNotifyOne, (_queue.Empty() ? 0 : 1)); if (_queue.Empty()) { return  }; var fiber = cast(cast(PollRandomElementFromList(_queue))); ScheduleAndRemove(fiber) }"
@@ -754,7 +754,7 @@ def Sched_SystemClock_now : String :=
   "now() { return init(init(GetScheduler().GetTimeNs())) }"
 
 def Sched_this_thread_sleep : String :=
-  "sleep_until(sleep_time) { var timeout = duration_cast(sleep_time.time_since_epoch()).count(); GetScheduler().Sleep(timeout) }"
+  "sleep_until(sleep_time) { var timeout = duration_cast<std::chrono::nanoseconds>(sleep_time.time_since_epoch()).count(); GetScheduler().Sleep(timeout) }"
 
 def Sched_this_thread_sleep_for : String :=
   "sleep_for(sleep_duration) { sleep_until((now() + sleep_duration)) }"
@@ -808,31 +808,31 @@ def Fault_cfg_SetSeed : String :=
   "SetSeed(seed) { SetSeed(seed) }"
 
 def Core_Call : String :=
-  "Call() { ifc (IsRun(Type)) { ifc (is_invocable_v) { Loop(this, CallImpl<false>(cast(init()))) } else { Loop(this, CallImpl<false>(init(init(cast(init()))))) } } else { var core = DownCast((*_self.caller)); Loop(this, CallImpl<false>(core.MoveOrConst())) } }"
+  "Call() { ifc (IsRun(Type)) { ifc (is_invocable_v) { Loop(this, CallImpl<false>(cast(init()))) } else { Loop(this, CallImpl<false>(init(init(cast(init()))))) } } else { var core = DownCast<ResultCore<Arg,E>>((*_self.caller)); Loop(this, CallImpl<false>(core.MoveOrConst<IsFromUnique(Type)>())) } }"
 
 def Core_Drop : String :=
   "Drop() { Loop(this, CallImpl<false>(init(init(cast(init()))))) }"
 
 def Core_Impl : String :=
-  "Impl(caller) { var async_done = lambda{ var AsyncShared = (kAsync == Shared); var core = DownCast((*_self.caller)); return Done<SymmetricTransfer,true>(core.MoveOrConst()) }; ifc (IsRun(Type)) { ifc ((kAsync != None)) { if (operator!=(_self.caller, nullptr)) { return async_done() } }; _executor.Submit((*this)); return Noop() } else { ifc ((kAsync != None)) { if (operator!=(_self.unwrapping, 0)) { return async_done() } }; (_self.caller = (&caller)); DownCast<BaseCore>(caller).TransferExecutorTo<IsFromShared(Type)>((*this)); ifc ((IsFromShared(Type) && (IsCall(Type) || (kAsync != None)))) { caller.IncRef() }; ifc (IsCall(Type)) { _executor.Submit((*this)); return Noop() } else { var core = DownCast(caller); return CallImpl<SymmetricTransfer>(core.MoveOrConst()) } } }"
+  "Impl(caller) { var async_done = lambda{ var AsyncShared = (kAsync == Shared); var core = DownCast<ResultCore<Ret,E>>((*_self.caller)); return Done<SymmetricTransfer,true>(core.MoveOrConst<!AsyncShared>()) }; ifc (IsRun(Type)) { ifc ((kAsync != None)) { if (operator!=(_self.caller, nullptr)) { return async_done() } }; _executor.Submit((*this)); return Noop<SymmetricTransfer>() } else { ifc ((kAsync != None)) { if (operator!=(_self.unwrapping, 0)) { return async_done() } }; (_self.caller = (&caller)); DownCast<BaseCore>(caller).TransferExecutorTo<IsFromShared(Type)>((*this)); ifc ((IsFromShared(Type) && (IsCall(Type) || (kAsync != None)))) { caller.IncRef() }; ifc (IsCall(Type)) { _executor.Submit((*this)); return Noop<SymmetricTransfer>() } else { var core = DownCast<ResultCore<Arg,E>>(caller); return CallImpl<SymmetricTransfer>(core.MoveOrConst<IsFromUnique(Type)>()) } } }"
 
 def Core_Here : String :=
   "Here(caller) { return Impl<false>(caller) }"
 
 def Core_CallImpl : String :=
-  "CallImpl(r) try { ifc ((is_same_v || is_invocable_v)) { return CallResolveAsync<SymmetricTransfer>(forward(r)) } else { return CallResolveState<SymmetricTransfer>(forward(r)) } } catch(...) { return Done<SymmetricTransfer>(current_exception()) }"
+  "CallImpl(r) try { ifc ((is_same_v || is_invocable_v)) { return CallResolveAsync<SymmetricTransfer>(forward<T>(r)) } else { return CallResolveState<SymmetricTransfer>(forward<T>(r)) } } catch(...) { return Done<SymmetricTransfer>(current_exception()) }"
 
 def Core_Done : String :=
-  "Done(value) { var caller = _self.caller; Store(forward(value)); ifc ((((!IsRun(Type)) && ((IsFromUnique(Type) || IsCall(Type)) || (kAsync != None))) || Async)) { caller.DecRef() }; ifc ((!Async)) { _func.storage.~()() }; return SetResult() }"
+  "Done(value) { var caller = _self.caller; Store(forward<T>(value)); ifc ((((!IsRun(Type)) && ((IsFromUnique(Type) || IsCall(Type)) || (kAsync != None))) || Async)) { caller.DecRef() }; ifc ((!Async)) { _func.storage.~()() }; return SetResult<SymmetricTransfer>() }"
 
 def Core_CallResolveState : String :=
-  "CallResolveState(r) { var state = r.State(); ifc ((is_invocable_v || (is_void_v && is_invocable_v))) { if (operator==(state, Value)) { return CallResolveAsync<SymmetricTransfer>(forward(r).Value()) } else if (operator==(state, Exception)) { return Done<SymmetricTransfer>(forward(r).Exception()) } else { return Done<SymmetricTransfer>(forward(r).Error()) } } else { var kIsException = is_invocable_v; var kIsError = is_invocable_v; decl StaticAssertDecl; var kState = (kIsException ? Exception : Error); if (operator==(state, kState)) { decl TypeAliasDecl; return CallResolveAsync<SymmetricTransfer>(get(forward(r).Internal())) }; return Done<SymmetricTransfer>(move(r)) } }"
+  "CallResolveState(r) { var state = r.State(); ifc ((is_invocable_v || (is_void_v && is_invocable_v))) { if (operator==(state, Value)) { return CallResolveAsync<SymmetricTransfer>(forward<Result>(r).Value()) } else if (operator==(state, Exception)) { return Done<SymmetricTransfer>(forward<Result>(r).Exception()) } else { return Done<SymmetricTransfer>(forward<Result>(r).Error()) } } else { var kIsException = is_invocable_v; var kIsError = is_invocable_v; decl StaticAssertDecl; var kState = (kIsException ? Exception : Error); if (operator==(state, kState)) { decl TypeAliasDecl; return CallResolveAsync<SymmetricTransfer>(get<T>(forward<Result>(r).Internal())) }; return Done<SymmetricTransfer>(move(r)) } }"
 
 def Core_CallResolveAsync : String :=
-  "CallResolveAsync(value) { ifc ((kAsync != None)) { var async = CallResolveVoid(forward(value)); var core = async.GetCore().Release(); ifc ((!IsRun(Type))) { _self.caller.DecRef(); (_self.unwrapping = 1) }; (_self.caller = core); _func.storage.~()(); ifc (is_task_v) { core.StoreCallback((*this)); return Step((*this), (*MoveToCaller(core))) } else { return core.SetInline((*this)) } } else { return Done<SymmetricTransfer>(CallResolveVoid(forward(value))) } }"
+  "CallResolveAsync(value) { ifc ((kAsync != None)) { var async = CallResolveVoid(forward<T>(value)); var core = async.GetCore().Release(); ifc ((!IsRun(Type))) { _self.caller.DecRef(); (_self.unwrapping = 1) }; (_self.caller = core); _func.storage.~()(); ifc (is_task_v) { core.StoreCallback((*this)); return Step<SymmetricTransfer>((*this), (*MoveToCaller(core))) } else { return core.SetInline<SymmetricTransfer>((*this)) } } else { return Done<SymmetricTransfer>(CallResolveVoid(forward<T>(value))) } }"
 
 def Core_CallResolveVoid : String :=
-  "CallResolveVoid(value) { var kArgVoid = is_invocable_v; var kRetVoid = is_void_v; ifc (kRetVoid) { ifc (kArgVoid) { forward(_func.storage)() } else { forward(_func.storage)(forward(value)) }; return cast(init()) } else ifc (kArgVoid) { return forward(_func.storage)() } else { return forward(_func.storage)(forward(value)) } }"
+  "CallResolveVoid(value) { var kArgVoid = is_invocable_v; var kRetVoid = is_void_v; ifc (kRetVoid) { ifc (kArgVoid) { forward<Invoke>(_func.storage)() } else { forward<Invoke>(_func.storage)(forward<T>(value)) }; return cast(init()) } else ifc (kArgVoid) { return forward<Invoke>(_func.storage)() } else { return forward<Invoke>(_func.storage)(forward<T>(value)) } }"
 
 def Core_ctor : String :=
   "Core<Ret, Arg, E, Func, Type, kAsync>(f) { (_self = init()) }"
@@ -841,7 +841,7 @@ def Core_Tag : String :=
   "Tag() { ifc (is_invocable_v) { return 1 } else ifc (is_invocable_v) { return 2 } else ifc (is_invocable_v) { return 3 } else ifc (is_invocable_v) { return 4 } else ifc (is_invocable_v) { return 5 } else { return 0 } }"
 
 def MakeCore : String :=
-  "MakeCore(f) { decl StaticAssertDecl; decl TypeAliasDecl; decl StaticAssertDecl; decl TypeAliasDecl; decl TypeAliasDecl; var kAsync = lambda{ ifc ((is_future_base_v || is_task_v)) { return Unique } else ifc (is_shared_future_base_v) { return Shared } else { return None } }(); decl TypeAliasDecl; ifc (IsToShared(CoreT)) { return MakeShared(kSharedRefWithFuture, forward(f)).Release() } else { return MakeUnique(forward(f)).Release() } }"
+  "MakeCore(f) { decl StaticAssertDecl; decl TypeAliasDecl; decl StaticAssertDecl; decl TypeAliasDecl; decl TypeAliasDecl; var kAsync = lambda{ ifc ((is_future_base_v || is_task_v)) { return Unique } else ifc (is_shared_future_base_v) { return Shared } else { return None } }(); decl TypeAliasDecl; ifc (IsToShared(CoreT)) { return MakeShared<Core>(kSharedRefWithFuture, forward<Func>(f)).Release() } else { return MakeUnique<Core>(forward<Func>(f)).Release() } }"
 
 def MoveToCaller : String :=
   "MoveToCaller(head) { while ((head.next != nullptr)) { var next = cast(head.next); (head.next = nullptr); (head = next) }; return head }"
@@ -856,55 +856,55 @@ def InlineCore_Noop : String :=
   "Noop() { ifc (SymmetricTransfer) { return cast(init(noop_coroutine().operator coroutine_handle())) } else { return cast(nullptr) } }"
 
 def BaseCore_TransferExecutorTo : String :=
-  "TransferExecutorTo(callback) { if ((!callback._executor.operator bool())) { (callback._executor = move_if(_executor)) } }"
+  "TransferExecutorTo(callback) { if ((!callback._executor.operator bool())) { (callback._executor = move_if<!Shared>(_executor)) } }"
 
 def ResultCore_Impl : String :=
-  "Impl(caller) { ifc (is_copy_constructible_v) { var ref = caller.GetRef(); if ((ref >= 3)) { ResultCore<V,E>::Store(DownCast(caller).Get()); return BaseCore::SetResultImpl<SymmetricTransfer,Shared>() }; ResultCore<V,E>::Store(move(DownCast(caller).Get())); if ((ref == 1)) { caller.DecRef() }; return BaseCore::SetResultImpl<SymmetricTransfer,Shared>() } else ifc (is_move_constructible_v) { ResultCore<V,E>::Store(move(DownCast(caller).Get())); caller.DecRef(); return BaseCore::SetResultImpl<SymmetricTransfer,Shared>() } else { return Noop() } }"
+  "Impl(caller) { ifc (is_copy_constructible_v) { var ref = caller.GetRef(); if ((ref >= 3)) { ResultCore<V,E>::Store(DownCast<ResultCore<V,E>>(caller).Get()); return BaseCore::SetResultImpl<SymmetricTransfer,Shared>() }; ResultCore<V,E>::Store(move(DownCast<ResultCore<V,E>>(caller).Get())); if ((ref == 1)) { caller.DecRef() }; return BaseCore::SetResultImpl<SymmetricTransfer,Shared>() } else ifc (is_move_constructible_v) { ResultCore<V,E>::Store(move(DownCast<ResultCore<V,E>>(caller).Get())); caller.DecRef(); return BaseCore::SetResultImpl<SymmetricTransfer,Shared>() } else { return Noop<SymmetricTransfer>() } }"
 
 def UniqueCore_Here : String :=
-  "Here(caller) { return Impl(caller) }"
+  "Here(caller) { return Impl<false,false>(caller) }"
 
 def FuncCore_ctor : String :=
-  "FuncCore<Func>(f) { new(init(forward(f)), (&_func.storage)) }"
+  "FuncCore<Func>(f) { new(init(forward<Func>(f)), (&_func.storage)) }"
 
 def PromiseCore_Call : String :=
-  "Call() { var promise = init(init(init(cast(init()), this))); try { decl StaticAssertDecl; var func = move(_func.storage); _func.storage.~()(); forward(func)(move(promise)) } catch(...) { if (promise.Valid()) { move(promise).Set(current_exception()) } else {  } } }"
+  "Call() { var promise = init(init(init(cast(init()), this))); try { decl StaticAssertDecl; var func = move(_func.storage); _func.storage.~()(); forward<Invoke>(func)(move(promise)) } catch(...) { if (promise.Valid()) { move(promise).Set(current_exception()) } else {  } } }"
 
 def PromiseCore_Drop : String :=
-  "Drop() { _func.storage.~()(); Store(cast(init())); Loop(this, SetResult()) }"
+  "Drop() { _func.storage.~()(); Store(cast(init())); Loop(this, SetResult<false>()) }"
 
 def PromiseCore_Here : String :=
   "Here(_) { _executor.Submit((*this)); return nullptr }"
 
 def ReadyCore_ctor : String :=
-  "ReadyCore<V, E>(args) { Store(pack(forward(args))) }"
+  "ReadyCore<V, E>(args) { Store(pack(forward<Args>(args))) }"
 
 def ReadyCore_Call : String :=
-  "Call() { Loop(this, SetResult()) }"
+  "Call() { Loop(this, SetResult<false>()) }"
 
 def ReadyCore_Drop : String :=
-  "Drop() { _result.~()(); Store(cast(init())); Call() }"
+  "Drop() { _result.~()<V,E>(); Store(cast(init())); Call() }"
 
 def ReadyCore_Here : String :=
-  "Here(_) { return SetResult() }"
+  "Here(_) { return SetResult<false>() }"
 
 def MakeTask : String :=
-  "MakeTask(args) { ifc ((sizeof... == 0)) { decl TypeAliasDecl; return init(init(init(init(MakeUnique(in_place))))) } else ifc (is_same_v) { decl TypeAliasDecl; decl TypeAliasDecl; return init(init(init(init(MakeUnique(in_place, pack(forward(args))))))) } else { return init(init(init(init(MakeUnique(pack(forward(args))))))) } }"
+  "MakeTask(args) { ifc ((sizeof... == 0)) { decl TypeAliasDecl; return init(init(init(init(MakeUnique<detail::ReadyCore<T,E>>(in_place))))) } else ifc (is_same_v) { decl TypeAliasDecl; decl TypeAliasDecl; return init(init(init(init(MakeUnique<detail::ReadyCore<T,E>>(in_place, pack(forward<Args>(args))))))) } else { return init(init(init(init(MakeUnique<detail::ReadyCore<V,E>>(pack(forward<Args>(args))))))) } }"
 
 def MakeFuture : String :=
-  "MakeFuture(args) { ifc ((sizeof... == 0)) { decl TypeAliasDecl; return init(init(init(init(MakeUnique(in_place))))) } else ifc (is_same_v) { decl TypeAliasDecl; decl TypeAliasDecl; return init(init(init(init(MakeUnique(in_place, pack(forward(args))))))) } else { return init(init(init(init(MakeUnique(pack(forward(args))))))) } }"
+  "MakeFuture(args) { ifc ((sizeof... == 0)) { decl TypeAliasDecl; return init(init(init(init(MakeUnique<detail::UniqueCore<T,E>>(in_place))))) } else ifc (is_same_v) { decl TypeAliasDecl; decl TypeAliasDecl; return init(init(init(init(MakeUnique<detail::UniqueCore<T,E>>(in_place, pack(forward<Args>(args))))))) } else { return init(init(init(init(MakeUnique<detail::UniqueCore<V,E>>(pack(forward<Args>(args))))))) } }"
 
 def MakeContract : String :=
-  "MakeContract() { var core = MakeUnique(); var future = init(init(init(cast(init()), core.Get()))); var promise = init(init(init(cast(init()), core.Release()))); return init(move(future), move(promise)) }"
+  "MakeContract() { var core = MakeUnique<detail::UniqueCore<V,E>>(); var future = init(init(init(cast(init()), core.Get()))); var promise = init(init(init(cast(init()), core.Release()))); return init(move(future), move(promise)) }"
 
 def MakeContractOn : String :=
-  "MakeContractOn(e) { var core = MakeUnique(); e.IncRef(); core._executor.Reset(cast(init()), (&e)); var future = init(init(init(cast(init()), core.Get()))); var promise = init(init(init(cast(init()), core.Release()))); return init(move(future), move(promise)) }"
+  "MakeContractOn(e) { var core = MakeUnique<detail::UniqueCore<V,E>>(); e.IncRef(); core._executor.Reset(cast(init()), (&e)); var future = init(init(init(cast(init()), core.Get()))); var promise = init(init(init(cast(init()), core.Release()))); return init(move(future), move(promise)) }"
 
 def detail_Run : String :=
-  "Run(e, f) { var core = lambda{ ifc (is_same_v) { var CoreT = operator|(operator|(Run, Call), ToUnique); return MakeCore(forward(f)) } else { return MakeUnique(forward(f)).Release() } }(); e.IncRef(); core._executor.Reset(cast(init()), (&e)); e.Submit((*core)); decl TypeAliasDecl; return init(init(init(init(cast(init()), core)))) }"
+  "Run(e, f) { var core = lambda{ ifc (is_same_v) { var CoreT = operator|(operator|(Run, Call), ToUnique); return MakeCore<CoreT,void,E>(forward<Func>(f)) } else { return MakeUnique<PromiseCore<V,E,Func&&,false>>(forward<Func>(f)).Release() } }(); e.IncRef(); core._executor.Reset(cast(init()), (&e)); e.Submit((*core)); decl TypeAliasDecl; return init(init(init(init(cast(init()), core)))) }"
 
 def detail_Schedule : String :=
-  "Schedule(e, f) { var core = lambda{ ifc (is_same_v) { var CoreT = operator|(operator|(Run, Call), ToUnique); return MakeCore(forward(f)) } else { return MakeUnique(forward(f)).Release() } }(); e.IncRef(); core._executor.Reset(cast(init()), (&e)); decl TypeAliasDecl; return init(init(init(init(cast(init()), core)))) }"
+  "Schedule(e, f) { var core = lambda{ ifc (is_same_v) { var CoreT = operator|(operator|(Run, Call), ToUnique); return MakeCore<CoreT,void,E>(forward<Func>(f)) } else { return MakeUnique<PromiseCore<V,E,Func&&,false>>(forward<Func>(f)).Release() } }(); e.IncRef(); core._executor.Reset(cast(init()), (&e)); decl TypeAliasDecl; return init(init(init(init(cast(init()), core)))) }"
 
 def Task_Start : String :=
   "Start(head, e) { (head = MoveToCaller(head)); operator=(head._executor, (&e)); e.Submit((*head)) } || Start(head) { (head = MoveToCaller(head)); operator->(head._executor).Submit((*head)) }"
@@ -940,10 +940,10 @@ def CoSrc_wait_impl_hpp : String :=
   "#pragma once #include <yaclib/algo/detail/base_core.hpp> #include <yaclib/algo/detail/wait_event.hpp> #include <yaclib/util/detail/atomic_counter.hpp> #include <yaclib/util/detail/default_event.hpp> #include <yaclib/util/detail/set_deleter.hpp> #include <yaclib/util/detail/unique_counter.hpp> #include <yaclib/util/type_traits.hpp> #include <cstddef> #include <iterator> #include <type_traits> namespace yaclib::detail { struct NoTimeoutTag final {}; template <typename Event, typename Timeout, typename Range> bool WaitRange(Event& event, const Timeout& timeout, Range&& range, std::size_t count) noexcept { const auto wait_count = [&] { if constexpr (Event::kShared) { return range([&, callback_count = std::size_t{}](auto handle) mutable noexcept { if constexpr (std::is_same_v<UniqueHandle, decltype(handle)>) { return handle.SetCallback(event.GetCall()); } else { return handle.SetCallback(event.callbacks[callback_count++]); } }); } else { return range([&](auto handle) noexcept { return handle.SetCallback(event.GetCall()); }); } }(); if (wait_count == 0 || event.SubEqual(count - wait_count + 1)) { return true; } auto token = event.Make(); std::size_t reset_count = 0; if constexpr (!std::is_same_v<Timeout, NoTimeoutTag>) { if (event.Wait(token, timeout)) { return true; } reset_count = range([](UniqueHandle handle) noexcept { return handle.Reset(); }); if (reset_count != 0 && (reset_count == wait_count || event.SubEqual(reset_count))) { return false; } } event.Wait(token); return reset_count == 0; } template <typename Event, typename Timeout, typename... Handles> bool WaitCore(const Timeout& timeout, Handles... handles) noexcept { static_assert(sizeof...(handles) >= 1, \"Number of futures must be at least one\"); static constexpr std::size_t kSharedCount = kCount<SharedHandle, Handles...>; static_assert(kSharedCount == 0 || std::is_same_v<Timeout, NoTimeoutTag>); auto range = [&](auto&& func) noexcept { return (... + static_cast<std::size_t>(func(handles))); }; using CoreEvent = std::conditional_t<sizeof...(handles) == 1, MultiEvent<Event, OneCounter, CallCallback>, MultiEvent<Event, AtomicCounter, CallCallback>>; using FinalEvent = std::conditional_t<kSharedCount <= 1, CoreEvent, StaticSharedEvent<CoreEvent, kSharedCount>>; FinalEvent event{sizeof...(handles) + 1}; return WaitRange(event, timeout, range, sizeof...(handles)); } template <typename Event, typename Timeout, typename Iterator> bool WaitIterator(const Timeout& timeout, Iterator it, std::size_t count) noexcept { static_assert(is_waitable_v<typename std::iterator_traits<Iterator>::value_type>, \"Wait function Iterator must be point to some Waitable (Future or SharedFuture)\"); static constexpr bool kShared = std::is_same_v<decltype(it->GetHandle()), SharedHandle>; if (count == 0) { return true; } if (count == 1) { YACLIB_ASSERT(it->Valid()); return WaitCore<Event>(timeout, it->GetHandle()); } auto range = [&](auto&& func) noexcept { std::size_t wait_count = 0; std::conditional_t<std::is_same_v<Timeout, NoTimeoutTag>, Iterator&, Iterator> range_it = it; for (std::size_t i = 0; i != count; ++i) { YACLIB_ASSERT(range_it->Valid()); wait_count += static_cast<std::size_t>(func(range_it->GetHandle())); ++range_it; } return wait_count; }; using CoreEvent = MultiEvent<Event, AtomicCounter, CallCallback>; using FinalEvent = std::conditional_t<kShared, DynamicSharedEvent<CoreEvent>, CoreEvent>; FinalEvent event{count + 1}; return WaitRange(event, timeout, range, count); } extern template bool WaitCore<DefaultEvent, NoTimeoutTag, UniqueHandle>(const NoTimeoutTag&, UniqueHandle) noexcept; extern template bool WaitCore<DefaultEvent, NoTimeoutTag, SharedHandle>(const NoTimeoutTag&, SharedHandle) noexcept; }"
 
 def Submit_free : String :=
-  "Submit(executor, f) { decl StaticAssertDecl; var job = MakeUniqueJob(forward(f)); executor.Submit((*job)) }"
+  "Submit(executor, f) { decl StaticAssertDecl; var job = MakeUniqueJob(forward<Func>(f)); executor.Submit((*job)) }"
 
 def MakeUniqueJob : String :=
-  "MakeUniqueJob(f) { return new(init(forward(f))) }"
+  "MakeUniqueJob(f) { return new(init(forward<Func>(f))) }"
 
 def UniqueJob_Call : String :=
   "Call() { Call(); Drop() }"
@@ -952,7 +952,7 @@ def UniqueJob_Drop : String :=
   "Drop() { delete(this) }"
 
 def SafeCall_Call : String :=
-  "Call() { ifc (is_nothrow_invocable_v) { forward(_func)() } else { try { forward(_func)() } catch(...) {  } } }"
+  "Call() { ifc (is_nothrow_invocable_v) { forward<Invoke>(_func)() } else { try { forward<Invoke>(_func)() } catch(...) {  } } }"
 
 def FreeSrc_safe_call_hpp : String :=
   "#pragma once #include <yaclib/config.hpp> #include <type_traits> #include <utility> namespace yaclib::detail { template <typename Func> class SafeCall { public: using Store = std::decay_t<Func>; using Invoke = std::conditional_t<std::is_function_v<std::remove_reference_t<Func>>, Store, Func>; explicit SafeCall(Store&& f) noexcept(std::is_nothrow_move_constructible_v<Store>) : _func{std::move(f)} { } explicit SafeCall(const Store& f) noexcept(std::is_nothrow_copy_constructible_v<Store>) : _func{f} { } protected: void Call() noexcept { if constexpr (std::is_nothrow_invocable_v<Invoke>) { std::forward<Invoke>(_func)(); } else { try { std::forward<Invoke>(_func)(); } catch (...) { } } } private: YACLIB_NO_UNIQUE_ADDRESS Store _func; }; }"
@@ -982,13 +982,13 @@ def ResultSrc_result_hpp : String :=
   "#pragma once #include <yaclib/fwd.hpp> #include <yaclib/util/type_traits.hpp> #include <exception> #include <utility> #include <variant> namespace yaclib { enum class [[nodiscard]] ResultState : unsigned char { Value = 0, Exception = 1, Error = 2, Empty = 3, }; struct [[nodiscard]] StopError final { constexpr StopError(StopTag) noexcept { } constexpr StopError(StopError&&) noexcept = default; constexpr StopError(const StopError&) noexcept = default; constexpr StopError& operator=(StopError&&) noexcept = default; constexpr StopError& operator=(const StopError&) noexcept = default; static const char* What() noexcept { return \"yaclib::StopError\"; } }; YACLIB_DEFINE_VOID_COMPARE(StopError) template <typename Error> class [[nodiscard]] ResultError final : public std::exception { public: ResultError(ResultError&&) noexcept(std::is_nothrow_move_constructible_v<Error>) = default; ResultError(const ResultError&) noexcept(std::is_nothrow_copy_constructible_v<Error>) = default; ResultError& operator=(ResultError&&) noexcept(std::is_nothrow_move_assignable_v<Error>) = default; ResultError& operator=(const ResultError&) noexcept(std::is_nothrow_copy_assignable_v<Error>) = default; explicit ResultError(Error&& error) noexcept(std::is_nothrow_move_constructible_v<Error>) : _error{std::move(error)} { } explicit ResultError(const Error& error) noexcept(std::is_nothrow_copy_constructible_v<Error>) : _error{error} { } [[nodiscard]] Error& Get() & noexcept { return _error; } [[nodiscard]] const Error& Get() const& noexcept { return _error; } const char* what() const noexcept final { return _error.What(); } private: Error _error; }; struct ResultEmpty final : std::exception { const char* what() const noexcept final { return \"yaclib::ResultEmpty\"; } }; template <typename ValueT, typename E> class Result final { static_assert(Check<ValueT>(), \"V should be valid\"); static_assert(Check<E>(), \"E should be valid\"); static_assert(!std::is_same_v<ValueT, E>, \"Result cannot be instantiated with same V and E, because it's ambiguous\"); static_assert(std::is_constructible_v<E, StopTag>, \"Error should be constructable from StopTag\"); using V = std::conditional_t<std::is_void_v<ValueT>, Unit, ValueT>; using Variant = std::variant<V, std::exception_ptr, E, std::monostate>; public: Result(Result&& other) noexcept(std::is_nothrow_move_constructible_v<Variant>) = default; Result(const Result& other) noexcept(std::is_nothrow_copy_constructible_v<Variant>) = default; Result& operator=(Result&& other) noexcept(std::is_nothrow_move_assignable_v<Variant>) = default; Result& operator=(const Result& other) noexcept(std::is_nothrow_copy_assignable_v<Variant>) = default; template <typename... Args, typename = std::enable_if_t<(sizeof...(Args) > 1 || !std::is_same_v<std::decay_t<head_t<Args&&...>>, Result>), void>> Result(Args&&... args) noexcept(std::is_nothrow_constructible_v<Variant, std::in_place_type_t<V>, Args&&...>) : Result{std::in_place, std::forward<Args>(args)...} { } template <typename... Args> Result(std::in_place_t, Args&&... args) noexcept(std::is_nothrow_constructible_v<Variant, std::in_place_type_t<V>, Args&&...>) : _result{std::in_place_type<V>, std::forward<Args>(args)...} { } Result(std::exception_ptr exception) noexcept : _result{std::in_place_type<std::exception_ptr>, std::move(exception)} { } Result(E error) noexcept : _result{std::in_place_type<E>, std::move(error)} { } Result(StopTag tag) noexcept : _result{std::in_place_type<E>, tag} { } Result() noexcept : _result{std::monostate{}} { } template <typename Arg, typename = std::enable_if_t<!is_result_v<std::decay_t<Arg>>, void>> Result& operator=(Arg&& arg) noexcept(std::is_nothrow_assignable_v<Variant, Arg>) { _result = std::forward<Arg>(arg); return *this; } [[nodiscard]] explicit operator bool() const noexcept { return State() == ResultState::Value; } void Ok() & = delete; void Ok() const&& = delete; void Value() & = delete; void Value() const&& = delete; void Exception() & = delete; void Exception() const&& = delete; void Error() & = delete; void Error() const&& = delete; [[nodiscard]] V&& Ok() && { return Get(std::move(*this)); } [[nodiscard]] const V& Ok() const& { return Get(*this); } [[nodiscard]] ResultState State() const noexcept { return ResultState{static_cast<unsigned char>(_result.index())}; } [[nodiscard]] V&& Value() && noexcept { return std::get<V>(std::move(_result)); } [[nodiscard]] const V& Value() const& noexcept { return std::get<V>(_result); } [[nodiscard]] std::exception_ptr&& Exception() && noexcept { return std::get<std::exception_ptr>(std::move(_result)); } [[nodiscard]] const std::exception_ptr& Exception() const& noexcept { return std::get<std::exception_ptr>(_result); } [[nodiscard]] E&& Error() && noexcept { return std::get<E>(std::move(_result)); } [[nodiscard]] const E& Error() const& noexcept { return std::get<E>(_result); } [[nodiscard]] Variant& Internal() { return _result; } [[nodiscard]] const Variant& Internal() const { return _result; } private: template <typename R> static decltype(auto) Get(R&& r) { switch (r.State()) { case ResultState::Value: return std::forward<R>(r).Value(); case ResultState::Exception: std::rethrow_exception(std::forward<R>(r).Exception()); case ResultState::Error: throw ResultError{std::forward<R>(r).Error()}; default: throw ResultEmpty{}; } } Variant _result; }; extern template class Result<>; }"
 
 def Task_ThenOn : String :=
-  "Then(e, f) { var CoreT = operator|(operator|(ToUnique, Call), Lazy); return SetCallback(_core, (&e), forward(f)) }"
+  "Then(e, f) { var CoreT = operator|(operator|(ToUnique, Call), Lazy); return SetCallback<CoreT,false>(_core, (&e), forward<Func>(f)) }"
 
 def Task_ThenInherit : String :=
-  "Then(f) { var CoreT = operator|(operator|(ToUnique, Call), Lazy); return SetCallback(_core, nullptr, forward(f)) }"
+  "Then(f) { var CoreT = operator|(operator|(ToUnique, Call), Lazy); return SetCallback<CoreT,false>(_core, nullptr, forward<Func>(f)) }"
 
 def Task_ThenInline : String :=
-  "ThenInline(f) { var CoreT = operator|(ToUnique, Lazy); return SetCallback(_core, nullptr, forward(f)) }"
+  "ThenInline(f) { var CoreT = operator|(ToUnique, Lazy); return SetCallback<CoreT,false>(_core, nullptr, forward<Func>(f)) }"
 
 def Task_Cancel : String :=
   "Cancel() { move((*this)).Detach(MakeInline(cast(init()))) }"
@@ -1006,22 +1006,22 @@ def Task_ToFutureOn : String :=
   "ToFuture(e) { Start(_core.Get(), e); return init(move(_core)) }"
 
 def FutureBase_ThenOn : String :=
-  "Then(e, f) { var CoreT = operator|(ToUnique, Call); return SetCallback(_core, (&e), forward(f)) }"
+  "Then(e, f) { var CoreT = operator|(ToUnique, Call); return SetCallback<CoreT,true>(_core, (&e), forward<Func>(f)) }"
 
 def FutureOn_ThenInherit : String :=
-  "Then(f) { var CoreT = operator|(ToUnique, Call); return SetCallback(_core, nullptr, forward(f)) }"
+  "Then(f) { var CoreT = operator|(ToUnique, Call); return SetCallback<CoreT,true>(_core, nullptr, forward<Func>(f)) }"
 
 def Future_ThenInline : String :=
-  "ThenInline(f) { var CoreT = ToUnique; return SetCallback(_core, nullptr, forward(f)) }"
+  "ThenInline(f) { var CoreT = ToUnique; return SetCallback<CoreT,false>(_core, nullptr, forward<Func>(f)) }"
 
 def FutureBase_DetachInline : String :=
-  "DetachInline(f) { var CoreT = Detach; SetCallback(_core, nullptr, forward(f)) }"
+  "DetachInline(f) { var CoreT = Detach; SetCallback<CoreT,false>(_core, nullptr, forward<Func>(f)) }"
 
 def FutureBase_DetachOn : String :=
-  "Detach(e, f) { var CoreT = operator|(Detach, Call); SetCallback(_core, (&e), forward(f)) }"
+  "Detach(e, f) { var CoreT = operator|(Detach, Call); SetCallback<CoreT,false>(_core, (&e), forward<Func>(f)) }"
 
 def FutureOn_DetachInherit : String :=
-  "Detach(f) { var CoreT = operator|(Detach, Call); SetCallback(_core, nullptr, forward(f)) }"
+  "Detach(f) { var CoreT = operator|(Detach, Call); SetCallback<CoreT,false>(_core, nullptr, forward<Func>(f)) }"
 
 def Inline_Submit : String :=
   "Submit(task) { ifc (Stopped) { task.Drop() } else { task.Call() } }"
@@ -1036,19 +1036,19 @@ def Manual_Drain : String :=
   "Drain() { var done = 0; while ((!_tasks.Empty())) { (++done); var task = _tasks.PopFront(); cast(task).Call() }; return done }"
 
 def MakeUnique : String :=
-  "MakeUnique(args) { return init(init(cast(init()), new(init(0, pack(forward(args)))))) }"
+  "MakeUnique(args) { return init(init(cast(init()), new(init(0, pack(forward<Args>(args)))))) }"
 
 def MakeShared : String :=
-  "MakeShared(n, args) { return init(init(cast(init()), new(init(n, pack(forward(args)))))) }"
+  "MakeShared(n, args) { return init(init(cast(init()), new(init(n, pack(forward<Args>(args)))))) }"
 
 def SharedCore_Retire : String :=
   "Retire() { var result = (operator==(GetRef(), 1) ? move(Get()) : as_const(Get())); DecRef(); return result }"
 
 def SharedCore_Here : String :=
-  "Here(caller) { return Impl(caller) }"
+  "Here(caller) { return Impl<false,true>(caller) }"
 
 def SharedCore_Next : String :=
-  "Next(caller) { return Impl(caller) }"
+  "Next(caller) { return Impl<true,true>(caller) }"
 
 def SharedCore_SetCallback : String :=
   "SetCallback(callback) { return BaseCore::SetCallbackImpl<true>(callback) }"
@@ -1075,43 +1075,43 @@ def SharedFutureBase_TouchConst : String :=
   "Touch() { return _core.Get() }"
 
 def SharedFutureBase_ThenOn : String :=
-  "Then(e, f) { var CoreT = operator|(ToUnique, Call); return SetCallback(_core, (&e), forward(f)) }"
+  "Then(e, f) { var CoreT = operator|(ToUnique, Call); return SetCallback<CoreT,true>(_core, (&e), forward<Func>(f)) }"
 
 def SharedFutureBase_SubscribeInline : String :=
-  "SubscribeInline(f) { var CoreT = Detach; SetCallback(_core, nullptr, forward(f)) }"
+  "SubscribeInline(f) { var CoreT = Detach; SetCallback<CoreT,false>(_core, nullptr, forward<Func>(f)) }"
 
 def SharedFutureBase_Subscribe : String :=
-  "Subscribe(e, f) { var CoreT = operator|(Detach, Call); SetCallback(_core, (&e), forward(f)) }"
+  "Subscribe(e, f) { var CoreT = operator|(Detach, Call); SetCallback<CoreT,true>(_core, (&e), forward<Func>(f)) }"
 
 def SharedFuture_ThenInline : String :=
-  "ThenInline(f) { var CoreT = ToUnique; return SetCallback(_core, nullptr, forward(f)) }"
+  "ThenInline(f) { var CoreT = ToUnique; return SetCallback<CoreT,false>(_core, nullptr, forward<Func>(f)) } || ThenInline(f) { var CoreT = ToUnique; return SetCallback<CoreT,true>(_core, nullptr, forward<Func>(f)) }"
 
 def SharedFutureBase_GetHandle : String :=
   "GetHandle() { return init(init((*_core))) }"
 
 def SharedPromise_Set : String :=
-  "Set(args) { ifc ((sizeof... == 0)) { _core.Store(in_place) } else { _core.Store(pack(forward(args))) }; var released = _core.Release(); (ignore = released.SetResult()) }"
+  "Set(args) { ifc ((sizeof... == 0)) { _core.Store(in_place) } else { _core.Store(pack(forward<Args>(args))) }; var released = _core.Release(); (ignore = released.SetResult<false>()) }"
 
 def SharedPromise_dtor : String :=
   "~SharedPromise<V, E>() { if (Valid()) { move((*this)).Set(cast(init())) } }"
 
 def MakeSharedContract : String :=
-  "MakeSharedContract() { var core = MakeShared(kSharedRefWithFuture); var future = init(init(init(cast(init()), core.Get()))); var promise = init(init(init(cast(init()), core.Release()))); return init(move(future), move(promise)) }"
+  "MakeSharedContract() { var core = MakeShared<detail::SharedCore<V,E>>(kSharedRefWithFuture); var future = init(init(init(cast(init()), core.Get()))); var promise = init(init(init(cast(init()), core.Release()))); return init(move(future), move(promise)) }"
 
 def MakeSharedContractOn : String :=
-  "MakeSharedContractOn(e) { var core = MakeShared(kSharedRefWithFuture); e.IncRef(); core._executor.Reset(cast(init()), (&e)); var future = init(init(init(cast(init()), core.Get()))); var promise = init(init(init(cast(init()), core.Release()))); return init(move(future), move(promise)) }"
+  "MakeSharedContractOn(e) { var core = MakeShared<detail::SharedCore<V,E>>(kSharedRefWithFuture); e.IncRef(); core._executor.Reset(cast(init()), (&e)); var future = init(init(init(cast(init()), core.Get()))); var promise = init(init(init(cast(init()), core.Release()))); return init(move(future), move(promise)) }"
 
 def Split : String :=
-  "Split(future) { decl StaticAssertDecl; var [..] = MakeSharedContract(); Connect(move(future), move(p)); return move(f) } || Split(promise) { return init(init(promise.GetCore())) }"
+  "Split(future) { decl StaticAssertDecl; var [..] = MakeSharedContract<V,E>(); Connect(move(future), move(p)); return move(f) } || Split(promise) { return init(init(promise.GetCore())) }"
 
 def Share : String :=
-  "Share(future) { var [..] = MakeContract(); Connect(future, move(p)); return move(f) } || Share(future, executor) { var [..] = MakeContractOn(executor); Connect(future, move(p)); return move(f) } || Share(promise) { var [..] = MakeContract(); Connect(promise, move(p)); return move(f) } || Share(promise, executor) { var [..] = MakeContractOn(executor); Connect(promise, move(p)); return move(f) }"
+  "Share(future) { var [..] = MakeContract<V,E>(); Connect(future, move(p)); return move(f) } || Share(future, executor) { var [..] = MakeContractOn<V,E>(executor); Connect(future, move(p)); return move(f) } || Share(promise) { var [..] = MakeContract<V,E>(); Connect(promise, move(p)); return move(f) } || Share(promise, executor) { var [..] = MakeContractOn<V,E>(executor); Connect(promise, move(p)); return move(f) }"
 
 def SharedFutureOn_On : String :=
   "On(_) { return init(move(_core)) }"
 
 def SharedHandle_SetCallback : String :=
-  "SetCallback(callback) { return core.SetCallbackImpl(callback) }"
+  "SetCallback(callback) { return core.SetCallbackImpl<true>(callback) }"
 
 def AtomicCounter_Add : String :=
   "Add(delta) { count.fetch_add(delta, rlx) }"
@@ -1141,31 +1141,31 @@ def IntrusivePtr_dtor : String :=
   "~IntrusivePtr<T>() { if (_ptr) { _ptr.DecRef() } }"
 
 def When_ConsumeImpl : String :=
-  "ConsumeImpl(st, core) { ifc (operator==(Strategy::kCorePolicy, Owned)) { st.Consume(core) } else { st.Consume(core.Retire()) } } || ConsumeImpl(st, core, index) { ifc (operator==(Strategy::kCorePolicy, Owned)) { st.Consume(index, core) } else { st.Consume(index, core.Retire()) } }"
+  "ConsumeImpl(st, core) { ifc (operator==(Strategy::kCorePolicy, Owned)) { st.Consume(core) } else { st.Consume(core.Retire()) } } || ConsumeImpl(st, core) { ifc (operator==(Strategy::kCorePolicy, Owned)) { st.Consume<Index>(core) } else { st.Consume<Index>(core.Retire()) } } || ConsumeImpl(st, core, index) { ifc (operator==(Strategy::kCorePolicy, Owned)) { st.Consume(index, core) } else { st.Consume(index, core.Retire()) } }"
 
 def When_CombinatorCallback_Impl : String :=
-  "Impl(caller) { var core = DownCast(caller); ifc ((Index == kDynamicTag)) { var index = (this - _self.callbacks.data()); Consume(_self.st, core, index) } else { Consume(_self.st, core) }; _self.DecRef() }"
+  "Impl(caller) { var core = DownCast<Core>(caller); ifc ((Index == kDynamicTag)) { var index = (this - _self.callbacks.data()); Consume(_self.st, core, index) } else { Consume<Index>(_self.st, core) }; _self.DecRef() }"
 
 def AwaitAwaiterBase_await_ready : String :=
   "await_ready() { return _core.Ready() }"
 
 def When_Consume : String :=
-  "Consume(st, core) { ifc (operator==(Strategy::kConsumePolicy, None)) { ifc (operator==(Strategy::kCorePolicy, Managed)) { core.DecRef() } } else ifc (operator==(Strategy::kConsumePolicy, Unordered)) { ConsumeImpl(st, core) } else ifc (operator==(Strategy::kConsumePolicy, Static)) { ConsumeImpl(st, core) } else { ConsumeImpl(st, core, Index) } } || Consume(st, core, index) { decl StaticAssertDecl; ifc (operator==(Strategy::kConsumePolicy, None)) { ifc (operator==(Strategy::kCorePolicy, Managed)) { core.DecRef() } } else ifc (operator==(Strategy::kConsumePolicy, Unordered)) { ConsumeImpl(st, core) } else { ConsumeImpl(st, core, index) } }"
+  "Consume(st, core) { ifc (operator==(Strategy::kConsumePolicy, None)) { ifc (operator==(Strategy::kCorePolicy, Managed)) { core.DecRef() } } else ifc (operator==(Strategy::kConsumePolicy, Unordered)) { ConsumeImpl(st, core) } else ifc (operator==(Strategy::kConsumePolicy, Static)) { ConsumeImpl<Index>(st, core) } else { ConsumeImpl(st, core, Index) } } || Consume(st, core, index) { decl StaticAssertDecl; ifc (operator==(Strategy::kConsumePolicy, None)) { ifc (operator==(Strategy::kCorePolicy, Managed)) { core.DecRef() } } else ifc (operator==(Strategy::kConsumePolicy, Unordered)) { ConsumeImpl(st, core) } else { ConsumeImpl(st, core, index) } }"
 
 def When_When : String :=
-  "When(futures) { ifc ((sizeof... == 0)) { return init(init(nullptr)) } else { var [..] = MakeContract(); decl TypeAliasDecl; decl TypeAliasDecl; decl TypeAliasDecl; decl TypeAliasDecl; decl TypeAliasDecl; decl TypeAliasDecl; var combinator = MakeShared(sizeof..., sizeof..., move(p)).Release(); combinator.Set(pack((*futures.GetCore().Release()))); return move(f) } } || When(begin, count) { if ((count == 0)) { return init(init(nullptr)) }; var [..] = MakeContract(); decl TypeAliasDecl; decl TypeAliasDecl; decl StaticAssertDecl; decl TypeAliasDecl; var combinator = MakeShared(count, count, move(p)).Release(); combinator.Set(begin, count); return move(f) }"
+  "When(futures) { ifc ((sizeof... == 0)) { return init(init(nullptr)) } else { var [..] = MakeContract<OutputValue,OutputError>(); decl TypeAliasDecl; decl TypeAliasDecl; decl TypeAliasDecl; decl TypeAliasDecl; decl TypeAliasDecl; decl TypeAliasDecl; var combinator = MakeShared<FinalCombinator>(sizeof..., sizeof..., move(p)).Release(); combinator.Set(pack((*futures.GetCore().Release()))); return move(f) } } || When(begin, count) { if ((count == 0)) { return init(init(nullptr)) }; var [..] = MakeContract<OutputValue,OutputError>(); decl TypeAliasDecl; decl TypeAliasDecl; decl StaticAssertDecl; decl TypeAliasDecl; var combinator = MakeShared<FinalCombinator>(count, count, move(p)).Release(); combinator.Set(begin, count); return move(f) }"
 
 def When_SingleCombinator_Set : String :=
   "Set(cores) { decl StaticAssertDecl; var index = 0; fold(SetCore(cores, (index++))) } || Set(begin, count) { for (var i = 0; (i < count); (++i)) { var core = (*begin.GetCore().Release()); ifc (operator==(kCorePolicy, Owned)) { st.Register(i, core) }; if ((!core.SetCallback((*this)))) { Consume(st, core, i); DecRef() }; (++begin) } }"
 
 def When_SingleCombinator_SetCore : String :=
-  "SetCore(core, i) { ifc (operator==(kCorePolicy, Owned)) { st.Register(i, core) }; if ((!core.SetCallback((*this)))) { Consume(st, core); DecRef() } }"
+  "SetCore(core, i) { ifc (operator==(kCorePolicy, Owned)) { st.Register(i, core) }; if ((!core.SetCallback((*this)))) { Consume<0>(st, core); DecRef() } }"
 
 def When_SingleCombinator_Impl : String :=
-  "Impl(caller) { var core = DownCast(caller); Consume(st, core); DecRef() }"
+  "Impl(caller) { var core = DownCast<Core>(caller); Consume<0>(st, core); DecRef() }"
 
 def When_StaticCombinator_SetCore : String :=
-  "SetCore(core) { var callback = GetCallbackHelper<Index,Core>(); ifc (operator==(kCorePolicy, Owned)) { st.Register(Index, core) }; if ((!core.SetCallback(callback))) { Consume(st, core); DecRef() } }"
+  "SetCore(core) { var callback = GetCallbackHelper<Index,Core>(); ifc (operator==(kCorePolicy, Owned)) { st.Register(Index, core) }; if ((!core.SetCallback(callback))) { Consume<Index>(st, core); DecRef() } }"
 
 def When_StaticCombinator_SetImpl : String :=
   "SetImpl(_, cores) { fold(SetCore<Is>(cores)) }"
@@ -1189,7 +1189,7 @@ def WhenAll_dtor_FirstFail : String :=
   "~All<yaclib::FailPolicy::FirstFail, type-parameter-0-0, type-parameter-0-1, type-parameter-0-2>() { if (_p.Valid()) { var result; result.reserve(_cores.size()); forrange { result.push_back(core.Retire().Value()) }; move(_p).Set(move(result)) } else { forrange { core.DecRef() } } }"
 
 def WhenAllTuple_Consume : String :=
-  "Consume(result) { (get(_tuple) = forward(result)) } || Consume(result) { if ((((!result) && (!_done.load(rlx))) && (!_done.exchange(true, acq_rel)))) { if (operator==(result.State(), Error)) { move(_p).Set(forward(result).Error()) } else { move(_p).Set(forward(result).Exception()) } } else if (result) { (get(_tuple) = forward(result).Value()) } }"
+  "Consume(result) { (get<Index>(_tuple) = forward<Result>(result)) } || Consume(result) { if ((((!result) && (!_done.load(rlx))) && (!_done.exchange(true, acq_rel)))) { if (operator==(result.State(), Error)) { move(_p).Set(forward<Result>(result).Error()) } else { move(_p).Set(forward<Result>(result).Exception()) } } else if (result) { (get<Index>(_tuple) = forward<Result>(result).Value()) } }"
 
 def WhenAllTuple_dtor_None : String :=
   "~AllTuple<yaclib::FailPolicy::None, type-parameter-0-0, type-parameter-0-1, type-parameter-0-2>() { move(_p).Set(move(_tuple)) }"
@@ -1198,7 +1198,7 @@ def WhenAllTuple_dtor_FirstFail : String :=
   "~AllTuple<yaclib::FailPolicy::FirstFail, type-parameter-0-0, type-parameter-0-1, type-parameter-0-2>() { if (_p.Valid()) { move(_p).Set(move(_tuple)) } }"
 
 def WhenJoin_Consume : String :=
-  "Consume(result) { if ((((!result) && (!_done.load(rlx))) && (!_done.exchange(true, acq_rel)))) { if (operator==(result.State(), Error)) { move(_p).Set(forward(result).Error()) } else { move(_p).Set(forward(result).Exception()) } } }"
+  "Consume(result) { if ((((!result) && (!_done.load(rlx))) && (!_done.exchange(true, acq_rel)))) { if (operator==(result.State(), Error)) { move(_p).Set(forward<Result>(result).Error()) } else { move(_p).Set(forward<Result>(result).Exception()) } } }"
 
 def WhenJoin_dtor_None : String :=
   "~Join<yaclib::FailPolicy::None, void, type-parameter-0-0, type-parameter-0-1>() { move(_p).Set() }"
@@ -1207,7 +1207,7 @@ def WhenJoin_dtor_FirstFail : String :=
   "~Join<yaclib::FailPolicy::FirstFail, void, type-parameter-0-0, type-parameter-0-1>() { if (_p.Valid()) { move(_p).Set() } }"
 
 def WhenAny_Consume : String :=
-  "Consume(result) { if (((!_done.load(rlx)) && (!_done.exchange(true, acq_rel)))) { if (result) { move(_p).Set(forward(result).Value()) } else if (operator==(result.State(), Error)) { move(_p).Set(forward(result).Error()) } else { move(_p).Set(forward(result).Exception()) } } } || Consume(result) { if (result) { if ((operator!=(_state.load(rlx), State::kValue) && operator!=(_state.exchange(State::kValue, acq_rel), State::kValue))) { move(_p).Set(forward(result).Value()) } } else { var expected = State::kEmpty; if ((operator==(_state.load(rlx), expected) && _state.compare_exchange_strong(expected, State::kError, acq_rel))) { if (operator==(result.State(), Error)) { (error = forward(result).Error()) } else { (error = forward(result).Exception()) } } } } || Consume(result) { if ((!DoneImpl(_state.load(acq)))) { if (result) { if ((!DoneImpl(_state.exchange(1, acq_rel)))) { move(_p).Set(forward(result).Value()) } } else if ((_state.fetch_sub(2, acq_rel) == 2)) { if (operator==(result.State(), Error)) { move(_p).Set(forward(result).Error()) } else { move(_p).Set(forward(result).Exception()) } } } }"
+  "Consume(result) { if (((!_done.load(rlx)) && (!_done.exchange(true, acq_rel)))) { if (result) { move(_p).Set(forward<Result>(result).Value()) } else if (operator==(result.State(), Error)) { move(_p).Set(forward<Result>(result).Error()) } else { move(_p).Set(forward<Result>(result).Exception()) } } } || Consume(result) { if (result) { if ((operator!=(_state.load(rlx), State::kValue) && operator!=(_state.exchange(State::kValue, acq_rel), State::kValue))) { move(_p).Set(forward<Result>(result).Value()) } } else { var expected = State::kEmpty; if ((operator==(_state.load(rlx), expected) && _state.compare_exchange_strong(expected, State::kError, acq_rel))) { if (operator==(result.State(), Error)) { (error = forward<Result>(result).Error()) } else { (error = forward<Result>(result).Exception()) } } } } || Consume(result) { if ((!DoneImpl(_state.load(acq)))) { if (result) { if ((!DoneImpl(_state.exchange(1, acq_rel)))) { move(_p).Set(forward<Result>(result).Value()) } } else if ((_state.fetch_sub(2, acq_rel) == 2)) { if (operator==(result.State(), Error)) { move(_p).Set(forward<Result>(result).Error()) } else { move(_p).Set(forward<Result>(result).Exception()) } } } }"
 
 def WhenAny_dtor_FirstFail : String :=
   "~Any<yaclib::FailPolicy::FirstFail, type-parameter-0-0, type-parameter-0-1, type-parameter-0-2>() { if (_p.Valid()) { if (operator==(error.State(), Error)) { move(_p).Set(move(error).Error()) } else { move(_p).Set(move(error).Exception()) } } }"
@@ -1216,13 +1216,13 @@ def WhenAny_DoneImpl : String :=
   "DoneImpl(value) { return ((value & 1) != 0) }"
 
 def WhenAll_front : String :=
-  "WhenAll(futures) { CheckSameError(); decl TypeAliasDecl; decl TypeAliasDecl; decl TypeAliasDecl; ifc (fold(is_same_v)) { ifc ((is_same_v && (F != None))) { return When(pack(move(futures))) } else { decl TypeAliasDecl; return When(pack(move(futures))) } } else { decl TypeAliasDecl; return When(pack(move(futures))) } } || WhenAll(begin, count) { decl TypeAliasDecl; ifc ((is_same_v && (F != None))) { return When(begin, count) } else { decl TypeAliasDecl; return When(begin, count) } } || WhenAll(begin, end) { return WhenAll(begin, cast((end - begin))) }"
+  "WhenAll(futures) { CheckSameError<Futures...>(); decl TypeAliasDecl; decl TypeAliasDecl; decl TypeAliasDecl; ifc (fold(is_same_v)) { ifc ((is_same_v && (F != None))) { return When<when::Join,F,void,OutputError>(pack(move(futures))) } else { decl TypeAliasDecl; return When<when::All,F,OutputValue,OutputError>(pack(move(futures))) } } else { decl TypeAliasDecl; return When<when::AllTuple,F,OutputValue,OutputError>(pack(move(futures))) } } || WhenAll(begin, count) { decl TypeAliasDecl; ifc ((is_same_v && (F != None))) { return When<when::Join,F,void,OutputError>(begin, count) } else { decl TypeAliasDecl; return When<when::All,F,OutputValue,OutputError>(begin, count) } } || WhenAll(begin, end) { return WhenAll<F>(begin, cast((end - begin))) }"
 
 def WhenAny_front : String :=
-  "WhenAny(futures) { CheckSameError(); decl TypeAliasDecl; decl TypeAliasDecl; return When(pack(move(futures))) } || WhenAny(begin, count) { ifc (is_future_base_v) { if ((count == 1)) { decl TypeAliasDecl; decl TypeAliasDecl; return init(init(exchange(begin.GetCore(), nullptr))) } }; return When(begin, count) } || WhenAny(begin, end) { return WhenAny(begin, cast((end - begin))) }"
+  "WhenAny(futures) { CheckSameError<Futures...>(); decl TypeAliasDecl; decl TypeAliasDecl; return When<when::Any,F,OutputValue,OutputError>(pack(move(futures))) } || WhenAny(begin, count) { ifc (is_future_base_v) { if ((count == 1)) { decl TypeAliasDecl; decl TypeAliasDecl; return init(init(exchange(begin.GetCore(), nullptr))) } }; return When<when::Any,F,typenameT::Core::Value,typenameT::Core::Error>(begin, count) } || WhenAny(begin, end) { return WhenAny<F>(begin, cast((end - begin))) }"
 
 def Join_front : String :=
-  "Join(futures) { CheckSameError(); return When(pack(move(futures))) } || Join(begin, count) { return When(begin, count) } || Join(begin, end) { return Join(begin, cast((end - begin))) }"
+  "Join(futures) { CheckSameError<Futures...>(); return When<when::Join,F,void,typenamehead_t<Futures...>::Core::Error>(pack(move(futures))) } || Join(begin, count) { return When<when::Join,F,void,typenameT::Core::Error>(begin, count) } || Join(begin, end) { return Join<F>(begin, cast((end - begin))) }"
 
 def WhenSrc_when_hpp : String :=
   "#pragma once #include <yaclib/algo/detail/inline_core.hpp> #include <yaclib/algo/detail/result_core.hpp> #include <yaclib/algo/detail/unique_core.hpp> #include <yaclib/async/contract.hpp> #include <yaclib/util/cast.hpp> #include <yaclib/util/combinator_strategy.hpp> #include <yaclib/util/helper.hpp> #include <yaclib/util/intrusive_ptr.hpp> #include <yaclib/util/ref.hpp> #include <yaclib/util/type_traits.hpp> #include <tuple> #include <vector> namespace yaclib::when { template <typename... Futures> YACLIB_INLINE void CheckSameError() { static_assert(sizeof...(Futures) > 0); using Error = typename head_t<Futures...>::Core::Error; static_assert((... && std::is_same_v<Error, typename Futures::Core::Error>), \"All futures need to have the same error type\"); } template <typename T> using IsUniqueCore = detail::IsInstantiationOf<detail::UniqueCore, T>; template <typename T> using IsSharedCore = detail::IsInstantiationOf<detail::SharedCore, T>; template <ConsumePolicy P> inline constexpr bool kIsOrdered = P == ConsumePolicy::Static || P == ConsumePolicy::Dynamic; inline constexpr std::size_t kDynamicTag = std::numeric_limits<std::size_t>::max(); template <typename Strategy, typename Core> YACLIB_INLINE void ConsumeImpl(Strategy& st, Core& core) { if constexpr (Strategy::kCorePolicy == CorePolicy::Owned) { st.Consume(core); } else { st.Consume(core.Retire()); } } template <std::size_t Index, typename Strategy, typename Core> YACLIB_INLINE void ConsumeImpl(Strategy& st, Core& core) { if constexpr (Strategy::kCorePolicy == CorePolicy::Owned) { st.template Consume<Index>(core); } else { st.template Consume<Index>(core.Retire()); } } template <typename Strategy, typename Core> YACLIB_INLINE void ConsumeImpl(Strategy& st, Core& core, std::size_t index) { if constexpr (Strategy::kCorePolicy == CorePolicy::Owned) { st.Consume(index, core); } else { st.Consume(index, core.Retire()); } } template <std::size_t Index, typename Strategy, typename Core> YACLIB_INLINE void Consume(Strategy& st, Core& core) { if constexpr (Strategy::kConsumePolicy == ConsumePolicy::None) { if constexpr (Strategy::kCorePolicy == CorePolicy::Managed) { core.DecRef(); } } else if constexpr (Strategy::kConsumePolicy == ConsumePolicy::Unordered) { ConsumeImpl(st, core); } else if constexpr (Strategy::kConsumePolicy == ConsumePolicy::Static) { ConsumeImpl<Index>(st, core); } else { ConsumeImpl(st, core, Index); } } template <typename Strategy, typename Core> YACLIB_INLINE void Consume(Strategy& st, Core& core, std::size_t index) { static_assert(Strategy::kConsumePolicy != ConsumePolicy::Static); if constexpr (Strategy::kConsumePolicy == ConsumePolicy::None) { if constexpr (Strategy::kCorePolicy == CorePolicy::Managed) { core.DecRef(); } } else if constexpr (Strategy::kConsumePolicy == ConsumePolicy::Unordered) { ConsumeImpl(st, core); } else { ConsumeImpl(st, core, index); } } template <typename Combinator, typename Core, std::size_t Index> struct CombinatorCallback final : detail::InlineCore { CombinatorCallback(Combinator* self = nullptr) : _self{self} { } [[nodiscard]] InlineCore* Here(InlineCore& caller) noexcept final { Impl(caller); return nullptr; } #if YACLIB_SYMMETRIC_TRANSFER != 0 [[nodiscard]] yaclib_std::coroutine_handle<> Next(InlineCore& caller) noexcept final { Impl(caller); return yaclib_std::noop_coroutine(); } #endif private: YACLIB_INLINE void Impl(InlineCore& caller) { auto& core = DownCast<Core>(caller); if constexpr (Index == kDynamicTag) { auto index = this - _self->callbacks.data(); Consume(_self->st, core, index); } else { Consume<Index>(_self->st, core); } _self->DecRef(); } Combinator* _self; }; template <typename... Cores> struct CoreSignature { using UniqueUniqueCores = typename Unique<typename Filter<IsUniqueCore, std::tuple<Cores...>>::Type>::Type; using SharedCores = typename Filter<IsSharedCore, std::tuple<Cores...>>::Type; static constexpr std::size_t kUniqueCount = std::tuple_size_v<UniqueUniqueCores>; static constexpr std::size_t kSharedCount = std::tuple_size_v<SharedCores>; static constexpr std::size_t kTotalCount = kUniqueCount + kSharedCount; }; template <typename Strategy, typename Core> struct SingleCombinator : detail::InlineCore { SingleCombinator(std::size_t count, typename Strategy::PromiseType p) : st{count, std::move(p)} { } template <typename... Cores> void Set(Cores&... cores) { static_assert((... && std::is_same_v<Core, Cores>)); std::size_t index = 0; (..., SetCore(cores, index++)); } template <typename Iterator, typename = typename std::iterator_traits<Iterator>::value_type> void Set(Iterator begin, std::size_t count) { for (std::size_t i = 0; i < count; ++i) { auto& core = *begin->GetCore().Release(); if constexpr (Strategy::kCorePolicy == CorePolicy::Owned) { st.Register(i, core); } if (!core.SetCallback(*this)) { Consume(st, core, i); DecRef(); } ++begin; } } [[nodiscard]] InlineCore* Here(InlineCore& caller) noexcept final { Impl(caller); return nullptr; } #if YACLIB_SYMMETRIC_TRANSFER != 0 [[nodiscard]] yaclib_std::coroutine_handle<> Next(InlineCore& caller) noexcept final { Impl(caller); return yaclib_std::noop_coroutine(); } #endif private: void SetCore(Core& core, std::size_t i) { if constexpr (Strategy::kCorePolicy == CorePolicy::Owned) { st.Register(i, core); } if (!core.SetCallback(*this)) { Consume<0>(st, core); DecRef(); } } YACLIB_INLINE void Impl(InlineCore& caller) { auto& core = DownCast<Core>(caller); Consume<0>(st, core); DecRef(); } Strategy st; }; template <typename Strategy, typename... Cores> struct StaticCombinator : IRef { private: template <typename Sequence> struct OrderedCallbacks; template <std::size_t... Is> struct OrderedCallbacks<std::index_sequence<Is...>> { using Type = std::tuple<CombinatorCallback<StaticCombinator, Cores, Is>...>; }; using UniqueUniqueCores = typename CoreSignature<Cores...>::UniqueUniqueCores; using SharedCores = typename CoreSignature<Cores...>::SharedCores; template <typename UniqueTuple, typename SharedTuple> struct UnorderedCallbacks; template <typename... UniqueCores, typename... SharedCores> struct UnorderedCallbacks<std::tuple<UniqueCores...>, std::tuple<SharedCores...>> { std::tuple<CombinatorCallback<StaticCombinator, UniqueCores, 0>...> unique_tuple; std::tuple<CombinatorCallback<StaticCombinator, SharedCores, 0>...> shared_tuple; }; using Callbacks = std::conditional_t<kIsOrdered<Strategy::kConsumePolicy>, typename OrderedCallbacks<decltype(std::make_index_sequence<sizeof...(Cores)>{})>::Type, UnorderedCallbacks<UniqueUniqueCores, SharedCores>>; template <typename Tuple, std::size_t... Is> void InitImpl(Tuple& tuple, std::index_sequence<Is...>) { ((std::get<Is>(tuple) = {this}), ...); } template <typename Tuple> void Init(Tuple& tuple) { InitImpl(tuple, std::make_index_sequence<std::tuple_size_v<Tuple>>{}); } template <std::size_t Index, typename Core> auto& GetCallbackHelper() { if constexpr (kIsOrdered<Strategy::kConsumePolicy>) { return std::get<Index>(callbacks); } else if constexpr (IsSharedCore<Core>::Value) { return std::get<translate_index_v<Index, std::tuple<Cores...>, SharedCores>>(callbacks.shared_tuple); } else { return std::get<index_of_v<Core, UniqueUniqueCores>>(callbacks.unique_tuple); } } template <std::size_t Index, typename Core> void SetCore(Core& core) { auto& callback = GetCallbackHelper<Index, Core>(); if constexpr (Strategy::kCorePolicy == CorePolicy::Owned) { st.Register(Index, core); } if (!core.SetCallback(callback)) { Consume<Index>(st, core); DecRef(); } } template <std::size_t... Is> void SetImpl(std::index_sequence<Is...>, Cores&... cores) { (SetCore<Is>(cores), ...); } public: StaticCombinator(std::size_t count, typename Strategy::PromiseType p) : st{count, std::move(p)} { if constexpr (kIsOrdered<Strategy::kConsumePolicy>) { Init(callbacks); } else { Init(callbacks.unique_tuple); Init(callbacks.shared_tuple); } } void Set(Cores&... cores) { SetImpl(std::make_index_sequence<sizeof...(Cores)>{}, cores...); } Strategy st; Callbacks callbacks; }; template <typename Strategy, typename Core> struct DynamicCombinator : IRef { DynamicCombinator(std::size_t count, typename Strategy::PromiseType p) : st{count, std::move(p)}, callbacks{count, {this}} { } template <typename Iterator> void Set(Iterator begin, std::size_t count) { for (std::size_t i = 0; i < count; ++i) { auto& core = *begin->GetCore().Release(); if constexpr (Strategy::kCorePolicy == CorePolicy::Owned) { st.Register(i, core); } if (!core.SetCallback(callbacks[i])) { Consume(st, core, i); DecRef(); } ++begin; } } Strategy st; std::vector<CombinatorCallback<DynamicCombinator, Core, kDynamicTag>> callbacks; }; template <template <FailPolicy, typename...> typename Strategy, FailPolicy F, typename OutputValue, typename OutputError, typename... Futures> auto When(Futures... futures) { if constexpr (sizeof...(Futures) == 0) { return Future<OutputValue, OutputError>{nullptr}; } else { auto [f, p] = MakeContract<OutputValue, OutputError>(); using Head = typename head_t<Futures...>::Core; using Value = typename Head::Value; using Error = typename Head::Error; using InputCore = std::conditional_t<(... && std::is_same_v<Head, typename Futures::Core>), Head, std::conditional_t<(... && (std::is_same_v<Value, typename Futures::Core::Value> && std::is_same_v<Error, typename Futures::Core::Error>)), detail::ResultCore<Value, Error>, detail::InlineCore>>; using S = Strategy<F, OutputValue, OutputError, InputCore>; using FinalCombinator = std::conditional_t<CoreSignature<typename Futures::Core...>::kTotalCount == 1 && !kIsOrdered<S::kConsumePolicy>, SingleCombinator<S, head_t<typename Futures::Core...>>, StaticCombinator<S, typename Futures::Core...>>; auto* combinator = MakeShared<FinalCombinator>(sizeof...(Futures), sizeof...(Futures), std::move(p)).Release(); combinator->Set(*futures.GetCore().Release()...); return std::move(f); } } template <template <FailPolicy, typename...> typename Strategy, FailPolicy F, typename OutputValue, typename OutputError, typename Iterator, typename Value = typename std::iterator_traits<Iterator>::value_type> auto When(Iterator begin, std::size_t count) { if (count == 0) { return Future<OutputValue, OutputError>{nullptr}; } auto [f, p] = MakeContract<OutputValue, OutputError>(); using Core = typename Value::Core; using S = Strategy<F, OutputValue, OutputError, Core>; static_assert(S::kConsumePolicy != ConsumePolicy::Static); using FinalCombinator = std::conditional_t<!kIsOrdered<S::kConsumePolicy> && IsUniqueCore<Core>::Value, SingleCombinator<S, Core>, DynamicCombinator<S, Core>>; auto* combinator = MakeShared<FinalCombinator>(count, count, std::move(p)).Release(); combinator->Set(begin, count); return std::move(f); } }"
@@ -1261,10 +1261,10 @@ def WhenSrc_type_traits_tuples : String :=
   "template <typename T, typename... List> inline constexpr auto kCount = (std::size_t{std::is_same_v<T, List> ? 1 : 0} + ...); template <typename T, typename... Ts> inline constexpr auto kContains = (std::is_same_v<T, Ts> || ...); template <typename T, typename Tuple> struct Prepend; template <typename T, typename... Ts> struct Prepend<T, std::tuple<Ts...>> { using Type = std::tuple<T, Ts...>; }; template <typename Tuple> struct Tail; template <typename T, typename... Ts> struct Tail<std::tuple<T, Ts...>> { using Type = std::tuple<Ts...>; }; template <typename Tuple> using tail_t = typename Tail<Tuple>::Type; template <template <typename> typename F, typename Tuple> struct Filter; template <template <typename> typename F> struct Filter<F, std::tuple<>> { using Type = std::tuple<>; }; template <template <typename> typename F, typename T> struct Filter<F, std::tuple<T>> { using Type = std::conditional_t<F<T>::Value, std::tuple<T>, std::tuple<>>; }; template <template <typename> typename F, typename T, typename... Ts> struct Filter<F, std::tuple<T, Ts...>> { private: using PrevType = typename Filter<F, std::tuple<Ts...>>::Type; public: using Type = std::conditional_t<F<T>::Value, typename Prepend<T, PrevType>::Type, PrevType>; }; template <typename Tuple> struct Unique; template <> struct Unique<std::tuple<>> { using Type = std::tuple<>; }; template <typename T> struct Unique<std::tuple<T>> { using Type = std::tuple<T>; }; template <typename T, typename... Ts> struct Unique<std::tuple<T, Ts...>> { private: using PrevType = typename Unique<std::tuple<Ts...>>::Type; public: using Type = std::conditional_t<kContains<T, Ts...>, PrevType, typename Prepend<T, PrevType>::Type>; }; template <typename Tuple> struct Variant; template <typename... Ts> struct Variant<std::tuple<Ts...>> { using Type = std::variant<Ts...>; }; template <typename T> struct WrapVoid { using Type = T; }; template <> struct WrapVoid<void> { using Type = Unit; }; template <typename T> using wrap_void_t = typename WrapVoid<T>::Type; template <typename Tuple> struct MaybeVariant; template <typename T> struct MaybeVariant<std::tuple<T>> { using Type = T; }; template <typename... Ts> struct MaybeVariant<std::tuple<Ts...>> { using Type = std::variant<wrap_void_t<Ts>...>; }; template <std::size_t FromIndex, std::size_t ToIndex, typename FromTuple, typename ToTuple> struct TranslateIndexImpl; template <std::size_t ToIndex, typename... From, typename... To> struct TranslateIndexImpl<0, ToIndex, std::tuple<From...>, std::tuple<To...>> { static_assert(sizeof...(From) >= sizeof...(To)); static constexpr std::size_t Index() { return ToIndex; } }; template <std::size_t FromIndex, std::size_t ToIndex, typename... From, typename... To> struct TranslateIndexImpl<FromIndex, ToIndex, std::tuple<From...>, std::tuple<To...>> { static_assert(sizeof...(From) >= sizeof...(To)); static_assert(FromIndex != 0); static constexpr std::size_t Index() { if constexpr (std::is_same_v<head_t<From...>, head_t<To...>>) { return TranslateIndexImpl<FromIndex - 1, ToIndex + 1, tail_t<std::tuple<From...>>, tail_t<std::tuple<To...>>>::Index(); } else { return TranslateIndexImpl<FromIndex - 1, ToIndex, tail_t<std::tuple<From...>>, std::tuple<To...>>::Index(); } } }; template <std::size_t FromIndex, typename FromTuple, typename ToTuple> inline constexpr std::size_t translate_index_v = TranslateIndexImpl<FromIndex, 0, FromTuple, ToTuple>::Index(); template <typename T, typename Tuple> struct IndexOf; template <typename T, typename... Ts> struct IndexOf<T, std::tuple<Ts...>> { static_assert(sizeof...(Ts) > 0); static constexpr std::size_t Index() { if constexpr (std::is_same_v<T, head_t<Ts...>>) { return 0; } else { return 1 + IndexOf<T, tail_t<std::tuple<Ts...>>>::Index(); } } }; template <typename T, typename Tuple> inline constexpr std::size_t index_of_v = IndexOf<T, Tuple>::Index();"
 
 def When_StaticCombinator_GetCallbackHelper : String :=
-  "GetCallbackHelper() { ifc (kIsOrdered) { return get(callbacks) } else ifc (Value) { return get(callbacks.shared_tuple) } else { return get(callbacks.unique_tuple) } }"
+  "GetCallbackHelper() { ifc (kIsOrdered) { return get<Index>(callbacks) } else ifc (Value) { return get<translate_index_v<Index,std::tuple<Cores...>,SharedCores>>(callbacks.shared_tuple) } else { return get<index_of_v<Core,UniqueUniqueCores>>(callbacks.unique_tuple) } }"
 
 def When_StaticCombinator_InitImpl : String :=
-  "InitImpl(tuple, _) { fold((get(tuple) = init(this))) }"
+  "InitImpl(tuple, _) { fold((get<Is>(tuple) = init(this))) }"
 
 def When_CombinatorCallback_Here : String :=
   "Here(caller) { Impl(caller); return nullptr }"
@@ -1279,7 +1279,7 @@ def TypeTraits_IndexOf_Index : String :=
   "Index() { ifc (is_same_v) { return 0 } else { return (1 + IndexOf<T,tail_t<std::tuple<Ts...>>>::Index()) } }"
 
 def Destroy_await_suspend : String :=
-  "await_suspend(handle) { var promise = handle.promise(); return promise.SetResult() }"
+  "await_suspend(handle) { var promise = handle.promise(); return promise.SetResult<true>() }"
 
 def PromiseType_initial_suspend : String :=
   "initial_suspend() { ifc (Lazy) { return cast(init()) } else { return cast(init()) } }"
@@ -1288,16 +1288,16 @@ def PromiseType_unhandled_exception : String :=
   "unhandled_exception() { Store(current_exception()) }"
 
 def PromiseType_return_value : String :=
-  "return_value(value) { Store(forward(value)) }"
+  "return_value(value) { Store(forward<Value>(value)) }"
 
 def PromiseType_Call : String :=
   "Call() { var next = Curr(); next.resume() }"
 
 def PromiseType_Drop : String :=
-  "Drop() { Store(cast(init())); SetResult().resume() }"
+  "Drop() { Store(cast(init())); SetResult<true>().resume() }"
 
 def PromiseType_Impl : String :=
-  "Impl(caller) { (_executor = DownCast(caller)._executor) }"
+  "Impl(caller) { (_executor = DownCast<BaseCore>(caller)._executor) }"
 
 def PromiseType_Here : String :=
   "Here(caller) { Impl(caller); Call(); return nullptr }"
@@ -1306,7 +1306,7 @@ def PromiseType_Next : String :=
   "Next(caller) { Impl(caller); return Curr() }"
 
 def PromiseTypeDeleter_Delete : String :=
-  "Delete(core) { var promise = DownCast(core); var handle = promise.Handle(); handle.destroy() }"
+  "Delete(core) { var promise = DownCast<PromiseType<V,E,Lazy,Shared>>(core); var handle = promise.Handle(); handle.destroy() }"
 
 def AwaitAwaiter_await_suspend : String :=
   "await_suspend(handle) { return init(init((*_core))).SetCallback(handle.promise()) } || await_suspend(handle) { var caller_handle = init(init((*_core))); (_core = operator&(handle.promise())); return caller_handle.SetCallback((*this)) }"
@@ -1315,7 +1315,7 @@ def AwaitAwaiter_Call : String :=
   "Call() { _core._executor.Submit((*_core)) }"
 
 def AwaitEvent_Impl : String :=
-  "Impl(caller) { if (SubEqual(1)) { ifc (Sticky) { var curr = cast(next); operator->(curr._executor).Submit((*curr)) } else { var curr = cast(next); ifc (SymmetricTransfer) { return Step(caller, (*curr)) } else { (curr = curr.Here(caller)) } } }; return Noop() }"
+  "Impl(caller) { if (SubEqual(1)) { ifc (Sticky) { var curr = cast(next); operator->(curr._executor).Submit((*curr)) } else { var curr = cast(next); ifc (SymmetricTransfer) { return Step<true>(caller, (*curr)) } else { (curr = curr.Here(caller)) } } }; return Noop<SymmetricTransfer>() }"
 
 def MultiAwaitAwaiter_await_ready : String :=
   "await_ready() { return operator==(Get(acq), 1) }"
@@ -1345,7 +1345,7 @@ def TransferSingleAwaiter_await_resume : String :=
   "await_resume() { return move(_result.Get()).Ok() }"
 
 def AwaitOnEvent_Impl : String :=
-  "Impl(_) { ifc (Single) { operator->(job._executor).Submit((*job)) } else { if (SubEqual(1)) { operator->(job._executor).Submit((*job)) } }; return Noop() }"
+  "Impl(_) { ifc (Single) { operator->(job._executor).Submit((*job)) } else { if (SubEqual(1)) { operator->(job._executor).Submit((*job)) } }; return Noop<SymmetricTransfer>() }"
 
 def AwaitOnAwaiter_await_suspend : String :=
   "await_suspend(handle) { var core = handle.promise(); (core._executor = (&_executor)); var caller_handle = init((*job)); (job = operator&(core)); if ((!caller_handle.SetCallback((*this)))) { _executor.Submit(core) } }"
